@@ -18,6 +18,7 @@ func init() {
 			GenC05Async(c)
 			// tsquery clause: planning with Execute/Filter opens and pulls nothing (cases "Q ...", query family)
 			GenC05Query(c)
+			genC05Demand(c)
 			// broken-out Iterator loops: pulls = elements seen
 			for _, src := range []string{"1,2,3,4,5,6,7,8,9,10,11,12", "5", "-", "3,1,2!e3"} {
 				for _, idx := range []string{"idx=0", "idx=1"} {
@@ -36,6 +37,9 @@ func init() {
 			}
 			if strings.HasPrefix(caseText, "Q ") {
 				return ExecC05Query(caseText)
+			}
+			if strings.HasPrefix(caseText, "T ") {
+				return execC05Demand(caseText)
 			}
 			if strings.HasPrefix(caseText, "L ") {
 				// Iterator / IndexedIterator loops with a break (executor and model shared with C04's second part): the
